@@ -4,7 +4,7 @@ import SciVerif.Tie.Pins
 /-! Tie A obligations for C01 on the current source. -/
 namespace SciVerif.Tie
 -- functions the model relies on without an obligation of its own naming them (pinned by bin/mkpins):
--- PIN-ALSO: Scipipe.FileIP_TempPath Scipipe.Task_createDirs Scipipe.Task_ensureAllOutputsExist Scipipe.Task_tempDirsExist
+-- PIN-ALSO: Scipipe.FileIP_TempPath Scipipe.Task_createDirs Scipipe.Task_ensureAllOutputsExist Scipipe.Task_tempDirsExist Scipipe.FileIP_FinalizePath Scipipe.FileIP_TempFileExists Scipipe.FileIP_Exists
 open SciVerif.TaskFS
 
 
@@ -24,12 +24,16 @@ theorem generated_all_ops_known_c01 : taskSemKnown = true := by decide
 
 
 
+
 -- BEGIN PINS (written by bin/mkpins; do not edit by hand)
 /-- the Go functions this property's model and obligations were written against have exactly the
 pinned skeletons (SHA-256 prefix of the atom list) -/
 theorem pinned_skeletons_c01 :
     pinsOk
     [("Scipipe.#decls", "7633eb8a74616d59"),
+     ("Scipipe.FileIP_Exists", "1916709587285b24"),
+     ("Scipipe.FileIP_FinalizePath", "cf8179072e56c7ba"),
+     ("Scipipe.FileIP_TempFileExists", "b451ff234c47445a"),
      ("Scipipe.FileIP_TempPath", "7eba22a35232a5cb"),
      ("Scipipe.FinalizePaths", "291fc0cefa37cea9"),
      ("Scipipe.Task_Execute", "40fd1fec0c69deb2"),
